@@ -7,6 +7,8 @@ CONSTANTS
   FIX_MOVED = FALSE
   FIX_RMALL = TRUE
   FIX_PATHKEY = TRUE
+  FIX_ONLYDIR = TRUE
+  REUSE_EARLY = FALSE
   FIX_ENOENT = FALSE
 INVARIANTS TrueNames NoSpuriousError RemoveWorks Covered OwnTreeOnly
 CHECK_DEADLOCK FALSE
